@@ -223,6 +223,27 @@ pub fn record(args: &Args) {
                         let i = rng.gen_range(0..sh.pending.len());
                         sh.pending.swap_remove(i)
                     };
+                    if adversarial && rng.gen_bool(0.006) {
+                        // a malformed block (not a time-out): the share was NOT retrieved; the worker treats
+                        // this as fatal.  Whatever it does, the block must not be marked sampled.
+                        tw.emit(json!({"name": "bad", "h": h, "r": r, "c": c}));
+                        let _ = tx.send(Ok(vec![0xde, 0xad, 0xbe, 0xef]));
+                        // serve every other share of that block honestly: if the worker survived the bad
+                        // answer it must still not mark the block
+                        for _ in 0..60 {
+                            settle().await;
+                            flush(&mut tw, &shared);
+                            let next = {
+                                let mut sh = shared.lock().unwrap();
+                                sh.pending.iter().position(|x| x.0 == h).map(|i| sh.pending.swap_remove(i))
+                            };
+                            if let Some((hh, r2, c2, cid2, tx2)) = next {
+                                tw.emit(json!({"name": "ans", "h": hh, "r": r2, "c": c2}));
+                                let _ = tx2.send(Ok(block_bytes(&edss[(hh - 1) as usize], &cid2, r2, c2)));
+                            }
+                        }
+                        break;
+                    }
                     tw.emit(json!({"name": "ans", "h": h, "r": r, "c": c}));
                     let _ = tx.send(Ok(block_bytes(&edss[(h - 1) as usize], &cid, r, c)));
                     continue;
